@@ -79,6 +79,9 @@ func runC19(c *Ctx) {
 	c.Rule("C19.R", "GET response cache: one injective key of (user, URL) for lookup and store", 6)
 	ruleAppResponseCacheKey(c, p, "C19.R")
 	c.Rule("C19.H", "no call hangs: channel capacities, WaitGroup pairing, bounded wait loops", 7)
+	c.Rule("C19.W", "results of concurrent store writes: one writer per captured result variable; wait windows are not shortened by an inherited deadline", 2)
+	ruleOneWriterPerCapturedResult(c, p, "C19.W", "app", "app/store", "app/cache")
+	ruleWaitWindowNotInherited(c, p, "C19.W")
 	const sp = ModPath + "/app/store"
 
 	// ---- C19.I
@@ -341,10 +344,17 @@ func runC19(c *Ctx) {
 				return true
 			}
 			if g, isGo := i.(*ssa.Go); isGo {
-				if mc, isMC := g.Call.Value.(*ssa.MakeClosure); isMC {
+				var body *ssa.Function
+				switch v := g.Call.Value.(type) {
+				case *ssa.MakeClosure:
+					body, _ = v.Fn.(*ssa.Function)
+				case *ssa.Function:
+					body = v // go storeResponse(…): the named form of the writing goroutine
+				}
+				if body != nil {
 					found := false
-					for _, h := range WithClosures(mc.Fn.(*ssa.Function)) {
-						EachInstrRaw(h, func(j ssa.Instruction) {
+					for _, h := range WithClosures(body) {
+						EachInstr(h, func(j ssa.Instruction) {
 							if c2 := CallOf(j); c2 != nil && c2.IsInvoke() && c2.Method.Name() == "WriteResponse" {
 								found = true
 							}
@@ -355,7 +365,19 @@ func runC19(c *Ctx) {
 			}
 			return false
 		}
-		hit, path := (&Walk{Target: IsReturn, Avoid: starts, Ctx: f}).FromBlock(f.Blocks[0])
+		// a return that hands back a non-nil error is a report, too (postResponse returning its
+		// error instead of sending it on a channel)
+		quietReturn := func(i ssa.Instruction) bool {
+			r, isR := i.(*ssa.Return)
+			if !isR || i.Parent() != f {
+				return false
+			}
+			if n := len(r.Results); n > 0 && NamedType(r.Results[n-1].Type()) == "error" && !IsNilConst(ReturnValue(r, n-1)) {
+				return false
+			}
+			return true
+		}
+		hit, path := (&Walk{Target: quietReturn, Avoid: starts, Ctx: f}).FromBlock(f.Blocks[0])
 		c.Check("C19.I", "respond:every-path-stores-or-reports", p, f.Pos(), hit == nil, "every return of postResponse passed the write of the response or an error report", "postResponse can return without storing the response and without reporting an error ("+PathString(p, path)+"): the agent's post is acknowledged, nothing is stored, and the client never receives the response posted under its ID")
 	}
 
@@ -662,6 +684,40 @@ func c19Hangs(c *Ctx, p *Prog) {
 			sum += n
 		}
 		ok := okc && (goLoop && sum == 1 && dones == 1 || !goLoop && int(sum) == dones)
+		// wg.Add(n) once in front of a loop `for i := 0; i < n; i++` (or over n parts) every
+		// iteration of which starts the one goroutine that defers Done
+		if !ok && len(adds) == 1 && !InLoop(adds[0].Block()) && dones == 1 {
+			addArg := PArgs(CallOf(adds[0]))[1]
+			if _, isC := ConstInt(addArg); !isC {
+				EachInstr(fn, func(i ssa.Instruction) {
+					g, isGo := i.(*ssa.Go)
+					if !isGo || !InLoop(g.Block()) || !Dominates(adds[0], g) {
+						return
+					}
+					// the loop head that tests `counter < n`
+					for hb := g.Block(); hb != nil; hb = hb.Idom() {
+						ifi := BlockIf(hb)
+						if ifi == nil || len(hb.Succs) != 2 {
+							continue
+						}
+						bo, isB := ifi.Cond.(*ssa.BinOp)
+						if !isB || bo.Op != token.LSS || !SameValue(bo.Y, addArg) {
+							continue
+						}
+						if _, isPhi := bo.X.(*ssa.Phi); !isPhi {
+							continue
+						}
+						body := hb.Succs[0]
+						head := hb
+						h, _ := (&Walk{Target: func(j ssa.Instruction) bool { return j.Block() == head && j == head.Instrs[0] }, Avoid: func(j ssa.Instruction) bool { return j == ssa.Instruction(g) }, Local: true}).FromBlock(body)
+						if h == nil {
+							ok = true
+						}
+						break
+					}
+				})
+			}
+		}
 		c.Check("C19.H", "waitgroup:"+FuncName(fn), p, adds[0].Pos(), ok && len(Calls(fn, "(*sync.WaitGroup).Wait")) == 1, fmt.Sprintf("Add(%d) matches %d goroutine(s) that defer Done; one Wait", sum, dones), fmt.Sprintf("%s: wg.Add total %d does not match the %d goroutine(s) that defer wg.Done(): Wait() returns early or never", FuncName(fn), sum, dones))
 	}
 	if nwg < 4 {
